@@ -164,6 +164,9 @@ func (x *X) transfer(s *State, from, to, c, ok string) {
 
 func (x *X) sufficient(s *State, from, c string) string {
 	d := x.bound("d", "Str")
+	if strings.Contains(c, "(ite ") {
+		return fmt.Sprintf("(forall ((%s Str)) (>= (select (select %s %s) %s) (select %s %s)))", d, tm(s.ghost["Bal"]), from, d, c, d)
+	}
 	return fmt.Sprintf("(forall ((%s Str)) (! (>= (select (select %s %s) %s) (select %s %s)) :pattern ((select %s %s))))", d, tm(s.ghost["Bal"]), from, d, c, d, c, d)
 }
 
